@@ -42,6 +42,7 @@ REQUIRED = ["entries_injective", "einv_fresh", "bit_set_get", "bit_total", "serv
             "search_omits_revoked", "resolve_after_revocation_in_history", "fact_resolve_and_search_sites",
             # VerifyVP (NutsProofs.Props.C11Present)
             "vp_accepted_only_without_revoked_credentials", "vp_with_revoked_credential_refused", "vp_of_revoked_credential_says_revoked", "fact_verify_vp_chain",
+            "credRevoked_after_register", "search_after_revocation_in_history", "vp_after_revocation_in_history",
             # JSON typing of status entries (NutsProofs.Props.C11CredStatusJson)
             "validate_json_refines_wire", "validated_entries_have_string_index", "non_string_index_refused"]
 
